@@ -38,7 +38,8 @@ pub fn gen(ch: &mut Chooser, max_len: usize) -> Case {
     let position = *ch.pick("position", &POSITIONS);
     let lang = *ch.pick("lang", &ALL_LANGS);
     // quick tier: the companion dimension for words of up to two tokens (the three-token words run without it)
-    let companion = if len <= 2 || max_len >= 4 { ch.choose("companion_line_doc", 5) } else { 0 };
+    // (thorough: all five forms up to three tokens, the two plain-text forms for the four-token words)
+    let companion = if len <= 2 || (max_len >= 4 && len <= 3) { ch.choose("companion_line_doc", 5) } else if max_len >= 4 { ch.choose("companion_line_doc", 3) } else { 0 };
     // the decorated programs for the shortest words (one token in quick, up to two in thorough)
     let decor = if len == 1 || (max_len >= 4 && len <= 2) { ch.choose("item_decorators", DECORS.len()) } else { 0 };
     Case { word, spaced, syntax, position, lang, companion, decor }
@@ -251,6 +252,20 @@ pub fn check_case(c: &Case, choices: &[u32], acc: &mut Acc) {
                         sig: format!("C15|{}|{}|{shape}", c.lang.name(), if anywhere { "sentinel-outside-comment" } else { "doc-not-reproduced" }),
                         detail: detail(json!({"DOCB_in_comment": has_b, "DOCE_in_comment": has_e})),
                     });
+                }
+            }
+            // backends that write docs as line comments have nothing to escape: every line of the doc is there verbatim
+            if matches!(c.lang, Lang::Scala | Lang::Swift | Lang::Go | Lang::Kotlin) && code == base {
+                let all: String = comments.join("\n");
+                for line in payload(c).split('\n').map(|l| l.trim()).filter(|l| !l.is_empty()) {
+                    if !all.contains(line) {
+                        okk = false;
+                        acc.vios.add(Violation {
+                            sig: format!("C15|{}|doc-line-not-reproduced-verbatim|{shape}", c.lang.name()),
+                            detail: detail(json!({"doc_line": line, "comments": comments})),
+                        });
+                        break;
+                    }
                 }
             }
             acc.outcomes.insert(report::fnv64(&format!("{}|{okk}", c.lang.name())));
